@@ -19,10 +19,13 @@ with NO hypothesis on the payload-encoder oracle.  `compress_part` over the stre
 
 Scope.  The encoder state at the call is either FRESH (job 0; every job at quality 0/1 and every
 job with an empty prefix: `set_custom_dictionary…` returns before touching positions) or ANY state
-satisfying the stream invariant `Inv` in `processing` outside a metadata block.  The state a
-quality ≥ 2 job is in after its dictionary call (positions start at `dict_size`,
-`custom_dictionary = true`) is NOT constructed by the stream model (M8 has no dictionary call): for
-those jobs the `Inv`-form of the theorems is what applies, once such a state is exhibited.
+satisfying the stream invariant `Inv` in `processing` outside a metadata block.  A quality ≥ 2 job
+with a non-empty prefix is NOT covered: after its dictionary call the positions start at `dict_size`
+with `custom_dictionary = true`, and the stream model (M8) has neither the dictionary call nor that
+flag — its catable prelude keeps the bare `assert!(last_processed_pos_ < 2)`, so from such a state
+the MODEL predicts a panic and the `Inv`-form below is vacuous there.  For those jobs the one-shot
+contract remains the recorded-answer hypothesis of `part_succeeds_when_stream_fits` (checked on every
+recomputed job by the `multi` stage: `Ok` ⇒ finished).
 That the stream does fit (`out ++ pending ≤ BrotliEncoderMaxCompressedSize`) is C08's subject
 (`stream_total_le_bound_*`, quality ≥ 2; false at quality 0/1 with small windows).
 -/
